@@ -116,6 +116,20 @@ func (r *Runner) VamanaQuery(sh *shard.Shard, p Prop, leaves []Q, insertOnly boo
 	if ss < limit {
 		ss = limit
 	}
+	filterSize := -1 // unknown
+	if r.Cfg.N() > 75 && r.R.Intn(3) == 0 {
+		// large universe: an id-list pre-filter whose size sits at the boundary
+		// of the search window (the property claims exactness up to searchSize)
+		ss = 25 + r.R.Intn(12)
+		if limit > ss {
+			limit = ss
+		}
+		k := []int{ss - 1, ss, ss, ss + 1, 2 * ss}[r.R.Intn(5)]
+		ids := r.pickIDs(k, 1)
+		fq := idQuery(ids)
+		f, af = &fq, M{"k": "id", "ids": ids}
+		filterSize = len(ids)
+	}
 	q := models.Query{Property: p.Name, VectorVamana: &models.SearchVectorVamanaOptions{Vector: vec, Operator: models.OperatorNear, Limit: limit, SearchSize: ss, Filter: f, Weight: w}}
 	res, err := sh.SearchPoints(models.SearchRequest{Query: q, Limit: 100000})
 	if err != nil {
@@ -130,7 +144,8 @@ func (r *Runner) VamanaQuery(sh *shard.Shard, p Prop, leaves []Q, insertOnly boo
 	// exact regimes: (a) insert-only history and the whole collection fits the
 	// search window and the degree bound; (b) a pre-filter smaller than the window
 	n := r.Cfg.N()
-	exact := (f == nil && insertOnly && n <= min(p.DegreeBound, ss-1)) || (f != nil && n <= ss)
+	exact := (f == nil && insertOnly && n <= min(p.DegreeBound, ss-1)) || (f != nil && n <= ss) ||
+		(filterSize >= 0 && filterSize <= ss)
 	r.TW.Emit("Vamana", M{"p": p.Name, "vec": avec, "limit": limit, "ss": ss, "w4": w4, "filter": af, "hits": hits,
 		"tol": tolFor(p.Metric), "exact": b2i(exact)})
 }
